@@ -12,7 +12,10 @@ pub fn node_html(n: &Value, out: &mut String) {
             out.push('<'); out.push_str(name);
             if let Some(a) = n["a"].as_object() {
                 for (k, v) in a {
-                    let s = match v { Value::String(s) => s.clone(), Value::Array(_) => cells_to_string(v),
+                    let s = match v { Value::String(s) => s.clone(),
+                                      Value::Array(a) if k == "class" => a.iter().filter_map(|x| x.as_str()).collect::<Vec<_>>().join(" "),
+                                      Value::Object(o) if k == "style" => crate::cssgen::style_attr_text(o.get("d").and_then(|d| d.as_array()).map(|d| d.as_slice()).unwrap_or(&[])),
+                                      Value::Array(_) => cells_to_string(v),
                                       Value::Object(o) => o.get("s").and_then(|x| x.as_str()).map(|x| x.to_string()).unwrap_or_else(|| cells_to_string(&o["c"])),
                                       other => other.to_string() };
                     out.push_str(&format!(" {}=\"{}\"", k, crate::gen::esc_attr(&s)));
@@ -45,6 +48,30 @@ pub fn cmd(args: &[String]) -> i32 {
             let docs: Vec<Value> = dbs.iter().map(|d| Value::String(doc_html(d))).collect();
             b["docs"] = Value::Array(docs);
             if let Some(o) = b.as_object_mut() { o.remove("docbodies"); }
+            writeln!(out, "{}", b).expect("write");
+            continue;
+        }
+        if b["meta"].get("full").and_then(|x| x.as_bool()).unwrap_or(false) {
+            // a whole document (html > head > style, body); the style element's text is the author sheet
+            let css = b["meta"]["css"].clone();
+            let mut r = crate::gen::Rng::new(1);
+            let canon = crate::cssgen::canonical();
+            let author = crate::cssgen::sheet_text(&css["author"], &mut r, &canon);
+            let mut html = String::new();
+            for n in b["body"].as_array().map(|a| a.as_slice()).unwrap_or(&[]) { node_html(n, &mut html); }
+            let html = html.replace("<style>S</style>", &format!("<style>{}</style>", author));
+            let mut extra = vec![];
+            if css["agent"].as_array().map(|a| !a.is_empty()).unwrap_or(false) { extra.push(serde_json::json!(["agentcss", crate::cssgen::sheet_text(&css["agent"], &mut r, &canon)])); }
+            if css["user"].as_array().map(|a| !a.is_empty()).unwrap_or(false) { extra.push(serde_json::json!(["css", crate::cssgen::sheet_text(&css["user"], &mut r, &canon)])); }
+            if let Some(runs) = b.get_mut("runs").and_then(|r| r.as_array_mut()) {
+                for run in runs.iter_mut() {
+                    run["html"] = Value::String(html.clone());
+                    let mut ops = extra.clone();
+                    ops.extend(run["cfg"]["ops"].as_array().cloned().unwrap_or_default());
+                    run["cfg"]["ops"] = Value::Array(ops);
+                }
+            }
+            if let Some(o) = b.as_object_mut() { o.remove("body"); }
             writeln!(out, "{}", b).expect("write");
             continue;
         }
